@@ -58,18 +58,33 @@ def gen_scenario(rng, sid):
     nscripts = rng.randint(3, 6)
     env = rng.choice(['default', 'default', 'explicit', 'mixed'])
     mode = rng.choice(['sequential', 'sequential', 'overlap'])
+    # (decided below) if every Script shows the same file, they cannot overlap: one live Script per path
     scripts = []
+    # an editor that keeps asking about ONE unchanged file: every Script gets the same text, path
+    # and probes (whatever is cached per path / text / position survives from Script to Script)
+    same = rng.random() < 0.35
+    if same:
+        mode = 'sequential'     # one live Script per path
+    b_same = None
     for j in range(nscripts):
+        if same and b_same is not None:
+            b = b_same
+            scripts.append({'sid': 's%d' % j, 'code': b.text, 'probes': list(b.probes), 'path': 'same.py'})
+            continue
         b = world.gen_probe_buffer(rng, mods, max_probes=rng.randint(1, 4))
         for text, probes in rng.sample(BUILTIN_PROBES, rng.randint(1, 2)):
             b.add(text, probes)
+        if same:
+            b.add('str("x")', [('get_signatures', 'str(', None)])
+            b.add('len("x")', [('get_signatures', 'len(', None)])
+            b_same = b
         # Scripts that are alive at the same time and are queried again later must not share a path
         # (nor both be path-less): jedi keeps ONE tree per path, which the next Script on that path
         # re-parses in place - a precondition of use, not something to test here
         pathed = True if mode == 'overlap' else rng.random() < 0.5
         rng.shuffle(b.probes)
-        scripts.append({'sid': 's%d' % j, 'code': b.text, 'probes': b.probes,
-                        'path': ('buf%d.py' % j) if pathed else None})
+        scripts.append({'sid': 's%d' % j, 'code': b.text, 'probes': list(b.probes),
+                        'path': 'same.py' if same else ('buf%d.py' % j) if pathed else None})
     ops = []
 
     envs = {}
@@ -122,6 +137,13 @@ def gen_scenario(rng, sid):
     for s in scripts:
         ops.append({'op': 'drop', 'sid': s['sid']})
     for j in range(2):
+        if same and b_same is not None:
+            e = {'sid': 'e%d' % j, 'code': b_same.text, 'probes': list(b_same.probes)[:4], 'path': 'same.py'}
+            ops.append(mk_script(e))
+            for p in e['probes']:
+                ops.append({'op': 'probe', 'sid': e['sid'], 'p': p})
+            ops.append({'op': 'drop', 'sid': e['sid']})
+            continue
         b = world.gen_probe_buffer(rng, mods, max_probes=2)
         for text, probes in rng.sample(BUILTIN_PROBES, 2):
             b.add(text, probes)
@@ -357,7 +379,7 @@ class C14(base.Engine):
         import time
         t0 = time.time()
         rng = driver.rng_for(seed, 'C14', tier, 'scenarios')
-        n_sc = 6 if tier == 'quick' else 10
+        n_sc = 12 if tier == 'quick' else 20
         scenarios = [gen_scenario(driver.rng_for(seed, 'C14', 'sc', i), 'sc%d' % i) for i in range(n_sc)]
         n_lc = 2 if tier == 'quick' else 6
         for i in range(n_lc):
